@@ -167,6 +167,8 @@ def _resolve(obj, strs):
                 for c in n['caps']:
                     if 'name' in c:
                         c['name'] = strs[c['name']]
+                    if 't' in c:
+                        c['t'] = strs[c['t']]
         for b in f.get('blocks', ()):
             for e in b['el']:
                 if isinstance(e, dict):
